@@ -1,4 +1,5 @@
-// kernels.go — a deliberately tiny Go→Lean translator for three decision kernels of rules/standard.
+// kernels.go — a deliberately tiny Go→Lean translator for the decision kernels of rules/standard (P4) and of
+// services/checker/static and services/process/standard (P7, second half of this file).
 //
 // It is a guard-chain extractor, not a Go compiler: the body of each kernel is read as a sequence of
 // guards (`if cond { …log…; return rules.X }`), local aliases, state-field updates and a final return,
@@ -68,6 +69,9 @@ type kernelSpec struct {
 	// (result: Verdict × Option fields = what was handed to the store, if it was called).
 	stateIsParam             bool
 	fetchFn, storeFn, keyArg string
+	// P7 kernels: the package-level `log` is a logger; custom = a shape-specific translator (see the end of the file)
+	pkgLog bool
+	custom func(k *ktrans, fd *ast.FuncDecl) string
 }
 
 var kernelSpecs = []kernelSpec{
@@ -106,6 +110,27 @@ var kernelSpecs = []kernelSpec{
 			{"req.Domain", "domain", "Bytes", tBytes},
 		},
 	},
+	// ---- P7 ----
+	{
+		file: "services/checker/static/parameters.go", fn: "regexify",
+		name: "regexifyGen", guards: "regexifyGuards", model: "Dirk.regexify",
+		pkgLog: true, custom: transRegexify,
+	},
+	{
+		file: "services/checker/static/service.go", fn: "Check",
+		name: "checkLoopGen", guards: "checkGuards", model: "Dirk.check / Dirk.scanPaths / Dirk.scanOps",
+		pkgLog: true, custom: transCheck,
+	},
+	{
+		file: "services/process/standard/generate.go", fn: "OnGenerate",
+		name: "generateAcceptsGen", guards: "generateAcceptsGuards", model: "Dirk.Dkg.generateAccepts",
+		pkgLog: true, custom: transOnGenerate,
+	},
+	{
+		file: "services/process/standard/service.go", fn: "OnContribute",
+		name: "fixedAcceptsGen", guards: "fixedAcceptsGuards", model: "Dirk.Dkg.fixedAccepts",
+		pkgLog: true, custom: transOnContribute,
+	},
 }
 
 var leanDomains = map[string]string{
@@ -140,12 +165,20 @@ type ktrans struct {
 	inScope bool // state fields readable
 	stored  bool // the store call has been passed
 	items   []kitem
+	// P7 kernels
+	u32     map[string]bool   // Lean atoms known to hold a uint32 (so that int(e) cannot overflow)
+	lenOf   map[string]string // Go identifier of an opaque slice parameter ↦ Lean parameter holding its length
+	opaque  map[string]string // source text of an opaque Bool call ↦ Lean parameter
+	opaqueI []string          // identifiers those calls mention (must not be shadowed)
+	elemSrc string            // source text of the inner loop's element, e.g. "path.operations[i]"
+	elemIdx string            // … and its index variable
 }
 
 // reserved: names a kernel must not rebind (inputs, the state, packages and builtins the translator interprets).
 func (k *ktrans) reserved(name string) bool {
 	switch name {
-	case "math", "bytes", "e2types", "rules", "fmt", "opentracing", "monitoring", "nil", "true", "false", "uint64", "int64", "len":
+	case "math", "bytes", "e2types", "rules", "fmt", "opentracing", "monitoring", "nil", "true", "false", "uint64", "int64", "len",
+		"strings", "regexp", "errors", "e2wallet", "int", "uint32", "bls", "err":
 		return true
 	}
 	return name == k.recv || (k.spec.stateVar != "" && name == k.spec.stateVar) || k.roots[name]
@@ -260,6 +293,15 @@ func (k *ktrans) expr(e ast.Expr, env map[string]lexpr) lexpr {
 			}
 		}
 		k.fail(e, "selector is not in the kernel's table of readable inputs")
+	case *ast.IndexExpr:
+		// the element of the inner loop of Check: path.operations[i]
+		if k.elemSrc != "" && src(x) == k.elemSrc {
+			if _, shadow := env[k.elemIdx]; shadow {
+				k.fail(e, "loop index shadowed")
+			}
+			return lexpr{"o", tString, true}
+		}
+		k.fail(e, "unsupported index expression")
 	case *ast.SliceExpr:
 		if x.Slice3 {
 			k.fail(e, "3-index slice")
@@ -306,6 +348,47 @@ func (k *ktrans) expr(e ast.Expr, env map[string]lexpr) lexpr {
 			case tUntyped:
 				return k.coerce(e, a, tInt)
 			}
+		case fn == "len" && len(x.Args) == 1 && k.isLenParam(x.Args[0], env):
+			return lexpr{k.lenOf[src(x.Args[0])], tNat, true}
+		case k.opaque[src(x)] != "":
+			// an opaque Bool input of the kernel, e.g. verifyContribution(generation.id, secret, vVec)
+			for _, id := range k.opaqueI {
+				if _, shadow := env[id]; shadow {
+					k.fail(e, "argument of an opaque call is shadowed by a local")
+				}
+			}
+			return lexpr{k.opaque[src(x)], tBool, true}
+		case fn == "int" && len(x.Args) == 1:
+			// uint32 → int cannot overflow (int is 64 bits on every platform dirk is built for)
+			a := k.expr(x.Args[0], env)
+			if a.t == tNat && a.atom && k.u32[a.s] {
+				return a
+			}
+		case fn == "strings.EqualFold" && len(x.Args) == 2:
+			a, b := k.expr(x.Args[0], env), k.expr(x.Args[1], env)
+			if a.t == tString && b.t == tString {
+				return lexpr{"equalFold " + paren(a) + " " + paren(b), tBool, false}
+			}
+		case (fn == "strings.HasPrefix" || fn == "strings.HasSuffix") && len(x.Args) == 2:
+			a, b := k.expr(x.Args[0], env), k.expr(x.Args[1], env)
+			if a.t == tString && b.t == tString {
+				m := map[string]string{"strings.HasPrefix": "String.startsWith", "strings.HasSuffix": "String.endsWith"}[fn]
+				return lexpr{m + " " + paren(a) + " " + paren(b), tBool, false}
+			}
+		case (fn == "strings.TrimPrefix" || fn == "strings.TrimSuffix") && len(x.Args) == 2:
+			a, b := k.expr(x.Args[0], env), k.expr(x.Args[1], env)
+			if a.t == tString && b.t == tString {
+				m := map[string]string{"strings.TrimPrefix": "String.dropPrefix", "strings.TrimSuffix": "String.dropSuffix"}[fn]
+				return lexpr{"(" + m + " " + paren(a) + " " + paren(b) + ").copy", tString, false}
+			}
+		case (fn == "strings.ToLower" || fn == "strings.ToUpper") && len(x.Args) == 1:
+			a := k.expr(x.Args[0], env)
+			if a.t == tString {
+				m := map[string]string{"strings.ToLower": "lowerS", "strings.ToUpper": "String.toUpper"}[fn]
+				return lexpr{m + " " + paren(a), tString, false}
+			}
+		case fn == "fmt.Sprintf" && len(x.Args) >= 1:
+			return k.sprintf(x, env)
 		case fn == "len" && len(x.Args) == 1:
 			a := k.expr(x.Args[0], env)
 			if a.t == tBytes || a.t == tStrList {
@@ -340,6 +423,26 @@ func (k *ktrans) expr(e ast.Expr, env map[string]lexpr) lexpr {
 				op = " ∨ "
 			}
 			return lexpr{paren(a) + op + paren(b), tProp, false}
+		}
+		switch x.Op {
+		case token.ADD:
+			// string concatenation (integer addition could overflow: not translated)
+			a, b := k.expr(x.X, env), k.expr(x.Y, env)
+			if a.t != tString || b.t != tString {
+				k.fail(e, "+ on other than strings")
+			}
+			return lexpr{paren(a) + " ++ " + paren(b), tString, false}
+		case token.QUO, token.REM:
+			// unsigned division by a non-zero literal (no overflow, no panic)
+			a, b := k.expr(x.X, env), k.expr(x.Y, env)
+			if _, lit := x.Y.(*ast.BasicLit); !lit || a.t != tNat || b.t != tUntyped || b.s == "0" {
+				k.fail(e, "division other than unsigned / non-zero literal")
+			}
+			op := " / "
+			if x.Op == token.REM {
+				op = " % "
+			}
+			return lexpr{paren(a) + op + b.s, tNat, false}
 		}
 		if op, ok := cmpOps[x.Op]; ok {
 			// pointer parameter compared with nil
@@ -823,13 +926,22 @@ func translateKernel(repo string, spec *kernelSpec) (out string) {
 				spec.fn, spec.file, spec.name, leanStr(string(u)))
 		}
 	}()
-	k := &ktrans{spec: spec, silent: map[string]bool{}, upd: map[string]lexpr{}, inScope: spec.stateIsParam}
+	sp := *spec // custom translators fill in the tables of readable inputs once they know the local names
+	spec = &sp
+	k := &ktrans{spec: spec, silent: map[string]bool{}, upd: map[string]lexpr{}, inScope: spec.stateIsParam,
+		roots: map[string]bool{}, u32: map[string]bool{}, lenOf: map[string]string{}, opaque: map[string]string{}}
 	fd := funcDecl(parse(filepath.Join(repo, spec.file)), spec.fn)
 	if fd == nil || fd.Body == nil {
 		k.fail(nil, "function %s not found in %s", spec.fn, spec.file)
 	}
 	if fd.Recv != nil && len(fd.Recv.List) == 1 && len(fd.Recv.List[0].Names) == 1 {
 		k.recv = fd.Recv.List[0].Names[0].Name
+	}
+	if spec.pkgLog {
+		k.silent["log"] = true
+	}
+	if spec.custom != nil {
+		return spec.custom(k, fd)
 	}
 	if fd.Type.Results == nil || len(fd.Type.Results.List) != 1 || src(fd.Type.Results.List[0].Type) != "rules.Result" || len(fd.Type.Results.List[0].Names) != 0 {
 		k.fail(nil, "%s does not return exactly one unnamed rules.Result", spec.fn)
@@ -919,10 +1031,11 @@ func translateKernel(repo string, spec *kernelSpec) (out string) {
 func writeKernels(repo, dir string) {
 	var b strings.Builder
 	b.WriteString("/-\n  Dirk.Gen.Kernels — GENERATED — do not edit.  Regenerated on every run by /verif/factx (kernels.go) from the\n" +
-		"  Go source of three decision kernels in rules/standard; Dirk/Props/KernelsEq.lean proves each definition\n" +
+		"  Go source of the decision kernels (rules/standard, services/checker/static, services/process/standard);\n" +
+		"  Dirk/Props/KernelsEq.lean proves each definition\n" +
 		"  equal to the hand-written model function.  A kernel outside the translatable fragment appears as\n" +
 		"  `kernelUntranslatable_<name>` instead, and KernelsEq.lean does not build.\n-/\n" +
-		"import Dirk.Model.Rules\n\nset_option linter.unusedVariables false\n\nnamespace Dirk.Gen\n\n")
+		"import Dirk.Model.Rules\nimport Dirk.Model.Checker\n\nset_option linter.unusedVariables false\n\nnamespace Dirk.Gen\n\n")
 	for i := range kernelSpecs {
 		b.WriteString(translateKernel(repo, &kernelSpecs[i]))
 		b.WriteString("\n")
@@ -937,4 +1050,925 @@ func writeKernels(repo, dir string) {
 			os.Exit(1)
 		}
 	}
+}
+
+// =============================================================================================
+// P7: four more kernels.  Each has its own small statement walker (the shapes differ too much from the
+// rules.Result guard chains above), but they share the expression translator, the notion of a silent
+// statement and the `kernelUntranslatable_<name>` fallback.
+
+// sprintf: fmt.Sprintf with a literal format made of text and %s verbs only, every argument a string.
+func (k *ktrans) sprintf(x *ast.CallExpr, env map[string]lexpr) lexpr {
+	lit, ok := x.Args[0].(*ast.BasicLit)
+	if !ok || lit.Kind != token.STRING {
+		k.fail(x, "fmt.Sprintf with a non-literal format")
+	}
+	format, err := strconv.Unquote(lit.Value)
+	if err != nil {
+		k.fail(x, "string literal")
+	}
+	for _, r := range format {
+		if r < 0x20 || r > 0x7e {
+			k.fail(x, "non-printable string literal")
+		}
+	}
+	pieces := strings.Split(format, "%s")
+	if len(pieces)-1 != len(x.Args)-1 {
+		k.fail(x, "fmt.Sprintf: number of %%s verbs and of arguments differ")
+	}
+	var parts []string
+	for i, p := range pieces {
+		if strings.Contains(p, "%") {
+			k.fail(x, "fmt.Sprintf with a verb other than %%s")
+		}
+		if p != "" {
+			parts = append(parts, leanStr(p))
+		}
+		if i < len(pieces)-1 {
+			a := k.expr(x.Args[i+1], env)
+			if a.t != tString {
+				k.fail(x, "fmt.Sprintf %%s of a non-string")
+			}
+			parts = append(parts, paren(a))
+		}
+	}
+	switch len(parts) {
+	case 0:
+		return lexpr{`""`, tString, true}
+	case 1:
+		return lexpr{parts[0], tString, false}
+	}
+	return lexpr{strings.Join(parts, " ++ "), tString, false}
+}
+
+func (k *ktrans) isLenParam(e ast.Expr, env map[string]lexpr) bool {
+	id, ok := e.(*ast.Ident)
+	if !ok || k.lenOf[id.Name] == "" {
+		return false
+	}
+	_, shadow := env[id.Name]
+	return !shadow
+}
+
+type gparam struct{ name, typ string }
+
+func flatParams(fd *ast.FuncDecl) []gparam {
+	var ps []gparam
+	for _, f := range fd.Type.Params.List {
+		if len(f.Names) == 0 {
+			ps = append(ps, gparam{"_", src(f.Type)})
+		}
+		for _, n := range f.Names {
+			ps = append(ps, gparam{n.Name, src(f.Type)})
+		}
+	}
+	return ps
+}
+
+func resultTypes(fd *ast.FuncDecl) string {
+	var ts []string
+	if fd.Type.Results != nil {
+		for _, f := range fd.Type.Results.List {
+			n := len(f.Names)
+			if n == 0 {
+				n = 1
+			}
+			for i := 0; i < n; i++ {
+				ts = append(ts, src(f.Type))
+			}
+			if len(f.Names) != 0 {
+				ts = append(ts, "(named)")
+			}
+		}
+	}
+	return strings.Join(ts, ", ")
+}
+
+func copyEnv(env map[string]lexpr) map[string]lexpr {
+	c := map[string]lexpr{}
+	for n, v := range env {
+		c[n] = v
+	}
+	return c
+}
+
+// alias: `x := e` / `x = e` at the top level of the kernel, x a plain local (substituted from then on).
+func (k *ktrans) alias(st *ast.AssignStmt, env map[string]lexpr) {
+	if len(st.Lhs) != 1 || len(st.Rhs) != 1 || (st.Tok != token.DEFINE && st.Tok != token.ASSIGN) {
+		k.fail(st, "unsupported assignment")
+	}
+	l, ok := st.Lhs[0].(*ast.Ident)
+	if !ok || l.Name == "_" || k.reserved(l.Name) || k.lenOf[l.Name] != "" {
+		k.fail(st, "assignment to other than a plain local")
+	}
+	for _, id := range k.opaqueI {
+		if l.Name == id {
+			k.fail(st, "assignment to an argument of an opaque call")
+		}
+	}
+	if _, known := env[l.Name]; st.Tok == token.ASSIGN && !known {
+		k.fail(st, "assignment to an unknown variable")
+	}
+	env[l.Name] = k.expr(st.Rhs[0], env)
+	delete(k.silent, l.Name)
+}
+
+// silentTail: b = silent statements followed by exactly one terminal statement, which is returned.
+func (k *ktrans) silentTail(b *ast.BlockStmt) ast.Stmt {
+	for i, st := range b.List {
+		if i == len(b.List)-1 {
+			return st
+		}
+		if !k.silentStmt(st) {
+			k.fail(st, "unsupported statement in a guard block")
+		}
+	}
+	k.fail(b, "empty guard block")
+	return nil
+}
+
+func plainIf(st ast.Stmt) (*ast.IfStmt, bool) {
+	x, ok := st.(*ast.IfStmt)
+	return x, ok && x.Init == nil && x.Else == nil
+}
+
+func (k *ktrans) cond(e ast.Expr, env map[string]lexpr) lexpr {
+	c := k.expr(e, env)
+	if !isLogical(c.t) {
+		k.fail(e, "condition is not boolean")
+	}
+	return c
+}
+
+// isRefusal: `return …, errors.New(…)` / `return …, fmt.Errorf(…)` with as many results as the function has.
+func (k *ktrans) isRefusal(st ast.Stmt, nres int) bool {
+	r, ok := st.(*ast.ReturnStmt)
+	if !ok || len(r.Results) != nres || nres == 0 {
+		return false
+	}
+	call, ok := r.Results[nres-1].(*ast.CallExpr)
+	if !ok {
+		return false
+	}
+	fn := src(call.Fun)
+	if fn != "errors.New" && fn != "fmt.Errorf" {
+		return false
+	}
+	for _, a := range call.Args {
+		if !pureArg(a) {
+			return false
+		}
+	}
+	for _, res := range r.Results[:nres-1] {
+		if !pureArg(res) && src(res) != "bls.SecretKey{}" {
+			return false
+		}
+	}
+	return true
+}
+
+// refusalGuard: `if cond { …log…; return …, <error> }`
+func (k *ktrans) refusalGuard(st ast.Stmt, env map[string]lexpr, nres int) (lexpr, string) {
+	x, ok := plainIf(st)
+	if !ok {
+		k.fail(st, "if with init or else")
+	}
+	c := k.cond(x.Cond, env)
+	if t := k.silentTail(x.Body); !k.isRefusal(t, nres) {
+		k.fail(t, "guard block does not end in a return of a fresh error")
+	}
+	return c, src(x.Cond) + " => refuse"
+}
+
+func boolChain(conds []string, ind string) string {
+	var b strings.Builder
+	for i, c := range conds {
+		if i > 0 {
+			b.WriteString(ind + "else ")
+		}
+		b.WriteString("if " + c + " then false\n")
+	}
+	if len(conds) > 0 {
+		b.WriteString(ind + "else ")
+	}
+	b.WriteString("true")
+	return b.String()
+}
+
+func (k *ktrans) emitGuardTexts(b *strings.Builder, texts []string) {
+	fmt.Fprintf(b, "/-- the guards of `%s`, as written in the source, in order -/\ndef %s : List String := [\n", k.spec.fn, k.spec.guards)
+	for i, t := range texts {
+		sep := ","
+		if i == len(texts)-1 {
+			sep = ""
+		}
+		fmt.Fprintf(b, "  %s%s\n", leanStr(t), sep)
+	}
+	b.WriteString("]\n")
+}
+
+func (k *ktrans) docHead(b *strings.Builder, what string) {
+	fmt.Fprintf(b, "/-- `%s` (%s), %s; model counterpart: `%s`. -/\n", k.spec.fn, k.spec.file, what, k.spec.model)
+}
+
+// ---- 1. regexify: a straight-line string construction ending in `return regexp.Compile(e)` ----
+
+func transRegexify(k *ktrans, fd *ast.FuncDecl) string {
+	ps := flatParams(fd)
+	if fd.Recv != nil || len(ps) != 1 || ps[0].typ != "string" || ps[0].name == "_" || k.reserved(ps[0].name) || resultTypes(fd) != "*regexp.Regexp, error" {
+		k.fail(nil, "%s is not func(string) (*regexp.Regexp, error)", k.spec.fn)
+	}
+	env := map[string]lexpr{ps[0].name: {"name", tString, true}}
+	var texts []string
+	result := ""
+	for i, st := range fd.Body.List {
+		if k.silentStmt(st) {
+			continue
+		}
+		switch x := st.(type) {
+		case *ast.AssignStmt:
+			k.alias(x, env)
+			if l := env[src(x.Lhs[0])]; l.t != tString {
+				k.fail(st, "non-string local")
+			}
+			texts = append(texts, src(st))
+		case *ast.IfStmt:
+			// if cond { v = e }  ↦  v := if cond then e else v
+			if _, ok := plainIf(st); !ok {
+				k.fail(st, "if with init or else")
+			}
+			c := k.cond(x.Cond, env)
+			inner := copyEnv(env)
+			for _, bs := range x.Body.List {
+				if k.silentStmt(bs) {
+					continue
+				}
+				as, ok := bs.(*ast.AssignStmt)
+				if !ok || as.Tok != token.ASSIGN {
+					k.fail(bs, "conditional block may only assign outer string variables")
+				}
+				k.alias(as, inner)
+			}
+			var names []string
+			for n := range inner {
+				names = append(names, n)
+			}
+			sortStrings(names)
+			for _, n := range names {
+				if inner[n] != env[n] {
+					if inner[n].t != tString || env[n].t != tString {
+						k.fail(st, "conditional assignment of a non-string")
+					}
+					env[n] = lexpr{"if " + c.s + " then " + inner[n].s + " else " + env[n].s, tString, false}
+				}
+			}
+			texts = append(texts, src(st))
+		case *ast.ReturnStmt:
+			if i != len(fd.Body.List)-1 || len(x.Results) != 1 {
+				k.fail(st, "return other than the final `return regexp.Compile(e)`")
+			}
+			call, ok := x.Results[0].(*ast.CallExpr)
+			if !ok || src(call.Fun) != "regexp.Compile" || len(call.Args) != 1 {
+				k.fail(st, "return other than the final `return regexp.Compile(e)`")
+			}
+			r := k.expr(call.Args[0], env)
+			if r.t != tString {
+				k.fail(st, "regexp.Compile of a non-string")
+			}
+			result = r.s
+			texts = append(texts, src(st))
+		default:
+			k.fail(st, "unsupported statement")
+		}
+	}
+	if result == "" {
+		k.fail(nil, "%s does not end in `return regexp.Compile(e)`", k.spec.fn)
+	}
+	var b strings.Builder
+	k.docHead(&b, "the string handed to `regexp.Compile`, as a function of the parameter")
+	fmt.Fprintf(&b, "def %s (name : String) : String :=\n  %s\n\n", k.spec.name, result)
+	k.emitGuardTexts(&b, texts)
+	return b.String()
+}
+
+func sortStrings(a []string) {
+	for i := 1; i < len(a); i++ {
+		for j := i; j > 0 && a[j] < a[j-1]; j-- {
+			a[j], a[j-1] = a[j-1], a[j]
+		}
+	}
+}
+
+// ---- 2. Check: guard prefix, then the two nested loops ----
+//
+//	guards on credentials == nil, credentials.Client, …                          ↦ checkGuardsGen
+//	W, A, err := e2wallet.WalletAndAccountNames(account); if err != nil { return false }
+//	                                                                             ↦ inputs pathOk / wallet
+//	P, E := s.access[credentials.Client]                                         ↦ input known (= E)
+//	for _, p := range P { if p.wallet.MatchString(W) && p.account.MatchString(A) {
+//	    for i := range p.operations { guards ending in return true/false, break or continue } } }
+//	return false                                                                 ↦ checkLoopGen / checkOpsGen
+//
+// The generated loop takes, per path, (did both regexes match?, operations): no regex engine in generated code.
+
+var checkGuardInputs = []string{"credsNil", "client", "pathOk", "wallet", "known"}
+
+func mentions(leanExpr string, names []string) bool {
+	isId := func(c byte) bool {
+		return c == '_' || c == '\'' || (c >= '0' && c <= '9') || (c >= 'a' && c <= 'z') || (c >= 'A' && c <= 'Z') || c >= 0x80
+	}
+	inStr := false
+	for i := 0; i < len(leanExpr); i++ {
+		c := leanExpr[i]
+		if inStr {
+			if c == '\\' {
+				i++
+			} else if c == '"' {
+				inStr = false
+			}
+			continue
+		}
+		if c == '"' {
+			inStr = true
+			continue
+		}
+		if isId(c) && (i == 0 || !(isId(leanExpr[i-1]) || leanExpr[i-1] == '.')) {
+			j := i
+			for j < len(leanExpr) && isId(leanExpr[j]) {
+				j++
+			}
+			for _, n := range names {
+				if leanExpr[i:j] == n {
+					return true
+				}
+			}
+			i = j - 1
+		}
+	}
+	return false
+}
+
+func boolLit(e ast.Expr) (string, bool) {
+	if id, ok := e.(*ast.Ident); ok && (id.Name == "true" || id.Name == "false") {
+		return id.Name, true
+	}
+	return "", false
+}
+
+func transCheck(k *ktrans, fd *ast.FuncDecl) string {
+	ps := flatParams(fd)
+	if k.recv == "" || len(ps) != 4 || ps[1].typ != "*checker.Credentials" || ps[2].typ != "string" || ps[3].typ != "string" || resultTypes(fd) != "bool" {
+		k.fail(nil, "%s is not func (s) (ctx, *checker.Credentials, string, string) bool", k.spec.fn)
+	}
+	cred, account, operation := ps[1].name, ps[2].name, ps[3].name
+	for _, n := range []string{cred, account, operation} {
+		if n == "_" || k.reserved(n) {
+			k.fail(nil, "unusable parameter name %q", n)
+		}
+	}
+	if cred == account || cred == operation || account == operation {
+		k.fail(nil, "duplicate parameter names")
+	}
+	k.spec.nilParams = []kparam{{cred, "credsNil", "Bool", tBool}}
+	k.spec.params = []kparam{{cred + ".Client", "client", "String", tString}}
+	k.roots[cred], k.roots[account] = true, true
+	env := map[string]lexpr{operation: {"op", tString, true}}
+
+	type guard struct{ cond, res string }
+	var guards []guard
+	var texts []string
+	wVar, aVar, pathsVar := "", "", ""
+	list := fd.Body.List
+	var loop *ast.RangeStmt
+	i := 0
+	for ; i < len(list) && loop == nil; i++ {
+		st := list[i]
+		if k.silentStmt(st) {
+			continue
+		}
+		switch x := st.(type) {
+		case *ast.AssignStmt:
+			// W, A, err := e2wallet.WalletAndAccountNames(account)   +   if err != nil { …; return false }
+			if call, ok := x.Rhs[0].(*ast.CallExpr); ok && len(x.Rhs) == 1 && src(call.Fun) == "e2wallet.WalletAndAccountNames" {
+				if x.Tok != token.DEFINE || len(x.Lhs) != 3 || len(call.Args) != 1 || src(call.Args[0]) != account || wVar != "" || src(x.Lhs[2]) != "err" {
+					k.fail(st, "unsupported form of the account path split")
+				}
+				wi, okw := x.Lhs[0].(*ast.Ident)
+				ai, oka := x.Lhs[1].(*ast.Ident)
+				if !okw || !oka || wi.Name == ai.Name || i+1 >= len(list) {
+					k.fail(st, "unsupported form of the account path split")
+				}
+				w, a := wi.Name, ai.Name
+				for _, n := range []string{w, a} {
+					if _, used := env[n]; used || n == "_" || k.reserved(n) {
+						k.fail(st, "account path split rebinds a local or an input")
+					}
+				}
+				chk, ok := plainIf(list[i+1])
+				if !ok || !isErrNotNil(chk.Cond) {
+					k.fail(list[i+1], "the error of the account path split is not checked immediately")
+				}
+				res, ok := k.boolReturn(k.silentTail(chk.Body))
+				if !ok {
+					k.fail(chk, "error arm does not end in return true/false")
+				}
+				wVar, aVar = w, a
+				env[w] = lexpr{"wallet", tString, true}
+				k.roots[a] = true // the account name may only be handed to MatchString
+				guards = append(guards, guard{"pathOk = false", res})
+				texts = append(texts, w+", "+a+", err := e2wallet.WalletAndAccountNames("+account+"); err != nil => return "+res)
+				i++
+				continue
+			}
+			// P, E := s.access[credentials.Client]
+			if ix, ok := x.Rhs[0].(*ast.IndexExpr); ok && len(x.Rhs) == 1 && len(x.Lhs) == 2 {
+				p, okp := x.Lhs[0].(*ast.Ident)
+				e, oke := x.Lhs[1].(*ast.Ident)
+				if x.Tok != token.DEFINE || src(ix.X) != k.recv+".access" || src(ix.Index) != cred+".Client" || !okp || !oke || pathsVar != "" ||
+					p.Name == "_" || e.Name == "_" || p.Name == e.Name || k.reserved(p.Name) || k.reserved(e.Name) {
+					k.fail(st, "unsupported form of the access lookup")
+				}
+				if _, used := env[p.Name]; used {
+					k.fail(st, "access lookup rebinds a local")
+				}
+				if _, used := env[e.Name]; used {
+					k.fail(st, "access lookup rebinds a local")
+				}
+				pathsVar = p.Name
+				k.roots[p.Name] = true
+				env[e.Name] = lexpr{"known", tBool, true}
+				texts = append(texts, src(st)+"  [map lookup: "+e.Name+" ↦ known]")
+				continue
+			}
+			k.alias(x, env)
+			texts = append(texts, src(st))
+		case *ast.IfStmt:
+			g, ok := plainIf(st)
+			if !ok {
+				k.fail(st, "if with init or else")
+			}
+			c := k.cond(g.Cond, env)
+			res, ok := k.boolReturn(k.silentTail(g.Body))
+			if !ok {
+				k.fail(st, "guard block does not end in return true/false")
+			}
+			guards = append(guards, guard{c.s, res})
+			texts = append(texts, src(g.Cond)+" => return "+res)
+		case *ast.RangeStmt:
+			loop = x
+		default:
+			k.fail(st, "unsupported statement")
+		}
+	}
+	if loop == nil || wVar == "" || pathsVar == "" {
+		k.fail(nil, "%s: path split, access lookup or the loop over the paths is missing", k.spec.fn)
+	}
+	// after the loop: silent statements and the final return
+	final := ""
+	for ; i < len(list); i++ {
+		if res, ok := k.boolReturn(list[i]); ok && i == len(list)-1 {
+			final = res
+			break
+		}
+		if !k.silentStmt(list[i]) {
+			k.fail(list[i], "unsupported statement after the loop")
+		}
+	}
+	if final == "" {
+		k.fail(nil, "%s does not end in return true/false", k.spec.fn)
+	}
+
+	// ---- the outer loop ----
+	bad := func(n ast.Node, why string) {
+		k.fail(n, "loop over the paths is not of the recognised shape (%s)", why)
+	}
+	key, _ := loop.Key.(*ast.Ident)
+	val, _ := loop.Value.(*ast.Ident)
+	if loop.Tok != token.DEFINE || key == nil || key.Name != "_" || val == nil || src(loop.X) != pathsVar {
+		bad(loop, "for _, p := range <paths>")
+	}
+	if env[wVar].s != "wallet" {
+		bad(loop, "wallet name was reassigned")
+	}
+	pv := val.Name
+	if _, used := env[pv]; used || pv == "_" || k.reserved(pv) {
+		bad(loop, "loop variable shadows an input")
+	}
+	var matchIf *ast.IfStmt
+	for _, st := range loop.Body.List {
+		if k.silentStmt(st) {
+			continue
+		}
+		x, ok := plainIf(st)
+		if !ok || matchIf != nil {
+			bad(st, "body is not a single if")
+		}
+		matchIf = x
+	}
+	if matchIf == nil {
+		bad(loop, "empty body")
+	}
+	and, ok := matchIf.Cond.(*ast.BinaryExpr)
+	wm := pv + ".wallet.MatchString(" + wVar + ")"
+	am := pv + ".account.MatchString(" + aVar + ")"
+	if !ok || and.Op != token.LAND || !((src(and.X) == wm && src(and.Y) == am) || (src(and.X) == am && src(and.Y) == wm)) {
+		bad(matchIf.Cond, "condition is not "+wm+" && "+am)
+	}
+	var inner *ast.RangeStmt
+	for _, st := range matchIf.Body.List {
+		if k.silentStmt(st) {
+			continue
+		}
+		x, ok := st.(*ast.RangeStmt)
+		if !ok || inner != nil {
+			bad(st, "match block is not a single loop over the operations")
+		}
+		inner = x
+	}
+	if inner == nil {
+		bad(matchIf, "empty match block")
+	}
+	// ---- the inner loop ----
+	ienv := map[string]lexpr{}
+	var names []string
+	for n := range env {
+		names = append(names, n)
+	}
+	sortStrings(names)
+	for _, n := range names {
+		if !mentions(env[n].s, checkGuardInputs) {
+			ienv[n] = env[n]
+		}
+	}
+	k.spec.params, k.spec.nilParams = nil, nil // the loop body may not read the guard inputs
+	ikey, _ := inner.Key.(*ast.Ident)
+	if inner.Tok != token.DEFINE || ikey == nil || src(inner.X) != pv+".operations" {
+		bad(inner, "for i := range p.operations")
+	}
+	if inner.Value == nil {
+		if _, used := ienv[ikey.Name]; used || ikey.Name == "_" || k.reserved(ikey.Name) || ikey.Name == pv {
+			bad(inner, "index variable")
+		}
+		k.elemSrc, k.elemIdx = pv+".operations["+ikey.Name+"]", ikey.Name
+		k.roots[ikey.Name] = true
+	} else {
+		ival, _ := inner.Value.(*ast.Ident)
+		if ival == nil || ikey.Name != "_" || ival.Name == "_" || k.reserved(ival.Name) || ival.Name == pv {
+			bad(inner, "for _, o := range p.operations")
+		}
+		ienv[ival.Name] = lexpr{"o", tString, true}
+		k.roots[ival.Name] = true
+	}
+	k.roots[pv] = true
+	type arm struct{ cond, res string }
+	var arms []arm
+	opsTexts := []string{}
+	terminal := func(st ast.Stmt) (string, string, bool) {
+		if res, ok := k.boolReturn(st); ok {
+			return "some " + res, "return " + res, true
+		}
+		if br, ok := st.(*ast.BranchStmt); ok && br.Label == nil {
+			switch br.Tok {
+			case token.BREAK:
+				return "none", "break", true
+			case token.CONTINUE:
+				return "checkOpsGen op os", "continue", true
+			}
+		}
+		return "", "", false
+	}
+	closed := false
+	for _, st := range inner.Body.List {
+		if closed {
+			bad(st, "statement after an unconditional exit")
+		}
+		if k.silentStmt(st) {
+			continue
+		}
+		if res, text, ok := terminal(st); ok {
+			arms = append(arms, arm{"", res})
+			opsTexts = append(opsTexts, "  "+text)
+			closed = true
+			continue
+		}
+		g, ok := plainIf(st)
+		if !ok {
+			bad(st, "inner loop statement is not a guard")
+		}
+		c := k.cond(g.Cond, ienv)
+		res, text, ok := terminal(k.silentTail(g.Body))
+		if !ok {
+			bad(g, "inner guard does not end in return true/false, break or continue")
+		}
+		arms = append(arms, arm{c.s, res})
+		opsTexts = append(opsTexts, "  "+src(g.Cond)+" => "+text)
+	}
+	if !closed {
+		arms = append(arms, arm{"", "checkOpsGen op os"})
+	}
+
+	var b strings.Builder
+	k.docHead(&b, "inner loop over one matching path's operations: `some b` = `return b`, `none` = the loop ends without a verdict")
+	b.WriteString("def checkOpsGen (op : String) : List String → Option Bool\n  | [] => none\n  | o :: os =>\n    ")
+	for _, a := range arms {
+		if a.cond == "" {
+			b.WriteString(a.res + "\n")
+			break
+		}
+		b.WriteString("if " + a.cond + " then " + a.res + "\n    else ")
+	}
+	b.WriteString("\n")
+	k.docHead(&b, "outer loop; each path is given as (did the wallet and the account regex both match?, its operations)")
+	fmt.Fprintf(&b, "def %s (op : String) : List (Bool × List String) → Bool\n  | [] => %s\n  | p :: ps =>\n    if p.1 then\n      match checkOpsGen op p.2 with\n      | some b => b\n      | none => %s op ps\n    else %s op ps\n\n",
+		k.spec.name, final, k.spec.name, k.spec.name)
+	k.docHead(&b, "the guards before the loops: `some b` = `return b`, `none` = go on to the loops.\n    `credsNil`: credentials == nil; `client`: credentials.Client; `pathOk`: WalletAndAccountNames returned no error;\n    `wallet`: the wallet name it returned; `known`: the client has an entry in the access map")
+	b.WriteString("def checkGuardsGen (credsNil : Bool) (client : String) (pathOk : Bool) (wallet : String) (known : Bool) : Option Bool :=\n  ")
+	for _, g := range guards {
+		b.WriteString("if " + g.cond + " then some " + g.res + "\n  else ")
+	}
+	b.WriteString("none\n\n")
+	texts = append(texts, "for _, "+pv+" := range "+pathsVar+" { if "+src(matchIf.Cond)+" { for … range "+pv+".operations {")
+	texts = append(texts, opsTexts...)
+	texts = append(texts, "} } }", "return "+final)
+	k.emitGuardTexts(&b, texts)
+	return b.String()
+}
+
+// boolReturn: `return true` / `return false`
+func (k *ktrans) boolReturn(st ast.Stmt) (string, bool) {
+	r, ok := st.(*ast.ReturnStmt)
+	if !ok || len(r.Results) != 1 {
+		return "", false
+	}
+	return boolLit(r.Results[0])
+}
+
+// ---- 3. OnGenerate: the refusal guards on the two uint32 parameters at the top of the function ----
+
+func transOnGenerate(k *ktrans, fd *ast.FuncDecl) string {
+	env := map[string]lexpr{}
+	for _, p := range flatParams(fd) {
+		lean := map[string]string{"numParticipants": "n", "signingThreshold": "t"}[p.name]
+		if lean != "" {
+			if p.typ != "uint32" {
+				k.fail(nil, "parameter %s is not a uint32", p.name)
+			}
+			env[p.name] = lexpr{lean, tNat, true}
+			k.u32[lean] = true
+			k.roots[p.name] = true
+		}
+	}
+	if len(env) != 2 {
+		k.fail(nil, "%s has no parameters numParticipants and signingThreshold", k.spec.fn)
+	}
+	nres := len(strings.Split(resultTypes(fd), ", "))
+	var conds, texts []string
+	stopped := false
+	for _, st := range fd.Body.List {
+		if k.silentStmt(st) {
+			continue
+		}
+		if _, isIf := st.(*ast.IfStmt); !isIf {
+			// the parameter checks end here: the first statement that is neither a guard nor logging
+			texts = append(texts, "[translation stops at: "+src(st)+"]")
+			stopped = true
+			break
+		}
+		c, text := k.refusalGuard(st, env, nres)
+		conds = append(conds, c.s)
+		texts = append(texts, text)
+	}
+	if !stopped {
+		k.fail(nil, "%s consists of guards only", k.spec.fn)
+	}
+	var b strings.Builder
+	k.docHead(&b, "the parameter checks at the top (uint32 arithmetic), `true` = none of them refuses")
+	fmt.Fprintf(&b, "def %s (n : Nat) (t : Nat) : Bool :=\n  %s\n\n", k.spec.name, boolChain(conds, "  "))
+	k.emitGuardTexts(&b, texts)
+	return b.String()
+}
+
+// ---- 4. OnContribute: the refusal guards between the lookup of the generation and the store ----
+//
+//	G, err := s.getGeneration(ctx, account); if err != nil { return …, err }
+//	f := false; for _, p := range G.participants { if p.ID == senderID { f = true; break } }     ↦ input listed
+//	guards over f, len(vVec) (↦ vlen), G.threshold (↦ threshold), verifyContribution(G.id, secret, vVec) (↦ valid)
+//	G.sharedSecrets[senderID] = secret; G.sharedVVecs[senderID] = vVec; return …, nil
+
+func transOnContribute(k *ktrans, fd *ast.FuncDecl) string {
+	ps := flatParams(fd)
+	if k.recv == "" || len(ps) != 5 || ps[1].typ != "uint64" || ps[2].typ != "string" || ps[3].typ != "bls.SecretKey" || ps[4].typ != "[]bls.PublicKey" ||
+		resultTypes(fd) != "bls.SecretKey, []bls.PublicKey, error" {
+		k.fail(nil, "%s is not func (s) (ctx, uint64, string, bls.SecretKey, []bls.PublicKey) (bls.SecretKey, []bls.PublicKey, error)", k.spec.fn)
+	}
+	ctx, sender, account, secret, vvec := ps[0].name, ps[1].name, ps[2].name, ps[3].name, ps[4].name
+	seen := map[string]bool{}
+	for _, n := range []string{ctx, sender, account, secret, vvec} {
+		if n == "_" || k.reserved(n) || seen[n] {
+			k.fail(nil, "unusable parameter name %q", n)
+		}
+		seen[n] = true
+		if n != ctx { // the tracing span rebinds ctx
+			k.roots[n] = true
+		}
+	}
+	k.lenOf[vvec] = "vlen"
+	env := map[string]lexpr{}
+	list := fd.Body.List
+	var texts []string
+	// phase 0: up to the lookup of the generation
+	gen := ""
+	i := 0
+	for ; i < len(list) && gen == ""; i++ {
+		st := list[i]
+		if k.silentStmt(st) || k.mutexStmt(st) {
+			continue
+		}
+		as, ok := st.(*ast.AssignStmt)
+		if !ok || as.Tok != token.DEFINE || len(as.Lhs) != 2 || len(as.Rhs) != 1 || src(as.Lhs[1]) != "err" ||
+			src(as.Rhs[0]) != k.recv+".getGeneration("+ctx+", "+account+")" {
+			k.fail(st, "unsupported statement before the lookup of the generation")
+		}
+		g, ok := as.Lhs[0].(*ast.Ident)
+		if !ok || g.Name == "_" || k.reserved(g.Name) || k.silent[g.Name] || i+1 >= len(list) {
+			k.fail(st, "unsupported form of the lookup of the generation")
+		}
+		chk, ok := plainIf(list[i+1])
+		if !ok || !isErrNotNil(chk.Cond) {
+			k.fail(list[i+1], "the error of the lookup is not checked immediately")
+		}
+		r, ok := k.silentTail(chk.Body).(*ast.ReturnStmt)
+		if !ok || len(r.Results) != 3 || src(r.Results[2]) != "err" {
+			k.fail(chk, "error arm of the lookup does not return the error")
+		}
+		gen = g.Name
+		i++
+	}
+	if gen == "" {
+		k.fail(nil, "%s does not look up the generation", k.spec.fn)
+	}
+	k.roots[gen] = true
+	k.spec.params = []kparam{{gen + ".threshold", "threshold", "Nat", tNat}}
+	k.u32["threshold"] = true
+	k.opaque["verifyContribution("+gen+".id, "+secret+", "+vvec+")"] = "valid"
+	k.opaqueI = []string{gen, secret, vvec}
+	// phase 1: the acceptance conditions
+	var conds []string
+	declared := map[string]bool{}
+	for ; i < len(list); i++ {
+		st := list[i]
+		if k.silentStmt(st) {
+			continue
+		}
+		done := false
+		switch x := st.(type) {
+		case *ast.AssignStmt:
+			if _, plain := x.Lhs[0].(*ast.Ident); !plain {
+				done = true // the store
+				break
+			}
+			k.alias(x, env)
+			declared[src(x.Lhs[0])] = true
+		case *ast.RangeStmt:
+			texts = append(texts, k.membershipID(x, env, declared, gen, sender))
+		case *ast.IfStmt:
+			c, text := k.refusalGuard(st, env, 3)
+			conds = append(conds, c.s)
+			texts = append(texts, text)
+		default:
+			done = true
+		}
+		if done {
+			break
+		}
+	}
+	// phase 2: the contribution is stored and answered
+	stores := 0
+	for ; i < len(list); i++ {
+		st := list[i]
+		if k.silentStmt(st) {
+			continue
+		}
+		if r, ok := st.(*ast.ReturnStmt); ok && i == len(list)-1 && len(r.Results) == 3 && src(r.Results[2]) == "nil" && stores > 0 {
+			texts = append(texts, "accept: the contribution is stored ("+strconv.Itoa(stores)+" assignments), return …, nil")
+			stores = -1
+			break
+		}
+		as, ok := st.(*ast.AssignStmt)
+		if !ok || as.Tok != token.ASSIGN || len(as.Lhs) != 1 || len(as.Rhs) != 1 {
+			k.fail(st, "unsupported statement after the acceptance conditions")
+		}
+		// G.<map>[senderID] = secret | vVec
+		ix, ok := as.Lhs[0].(*ast.IndexExpr)
+		if !ok {
+			k.fail(st, "unsupported statement after the acceptance conditions")
+		}
+		sel, ok := ix.X.(*ast.SelectorExpr)
+		if !ok || src(sel.X) != gen || src(ix.Index) != sender || (src(as.Rhs[0]) != secret && src(as.Rhs[0]) != vvec) {
+			k.fail(st, "unsupported statement after the acceptance conditions")
+		}
+		stores++
+	}
+	if stores != -1 {
+		k.fail(nil, "%s does not end in storing the contribution and returning a nil error", k.spec.fn)
+	}
+	var b strings.Builder
+	k.docHead(&b, "the conditions between the lookup of the generation and the storing of the contribution, `true` = stored.\n    `valid`: verifyContribution(generation.id, secret, vVec); `vlen`: len(vVec); `threshold`: generation.threshold;\n    `listed`: the sender id is the ID of one of generation.participants")
+	fmt.Fprintf(&b, "def %s (valid : Bool) (vlen : Nat) (threshold : Nat) (listed : Bool) : Bool :=\n  %s\n\n", k.spec.name, boolChain(conds, "  "))
+	k.emitGuardTexts(&b, texts)
+	return b.String()
+}
+
+// mutexStmt: s.xMu.Lock() / defer s.xMu.Unlock()
+func (k *ktrans) mutexStmt(st ast.Stmt) bool {
+	var call *ast.CallExpr
+	switch x := st.(type) {
+	case *ast.ExprStmt:
+		call, _ = x.X.(*ast.CallExpr)
+	case *ast.DeferStmt:
+		call = x.Call
+	}
+	if call == nil || len(call.Args) != 0 {
+		return false
+	}
+	sel, ok := call.Fun.(*ast.SelectorExpr)
+	if !ok || (sel.Sel.Name != "Lock" && sel.Sel.Name != "Unlock" && sel.Sel.Name != "RLock" && sel.Sel.Name != "RUnlock") {
+		return false
+	}
+	mu, ok := sel.X.(*ast.SelectorExpr)
+	return ok && src(mu.X) == k.recv && k.recv != "" && strings.HasSuffix(mu.Sel.Name, "Mu")
+}
+
+// membershipID recognises
+//
+//	f := false
+//	for _, p := range G.participants { if p.ID == senderID { f = true; break } }    (or the index form)
+//
+// and rebinds f to the opaque input `listed`.
+func (k *ktrans) membershipID(r *ast.RangeStmt, env map[string]lexpr, declared map[string]bool, gen, sender string) string {
+	bad := func() { k.fail(r, "loop is not the membership test of the sender id in the generation's participants") }
+	listSrc := gen + ".participants"
+	key, _ := r.Key.(*ast.Ident)
+	if r.Tok != token.DEFINE || key == nil || src(r.X) != listSrc {
+		bad()
+	}
+	elem := ""
+	if r.Value == nil {
+		if key.Name == "_" || k.reserved(key.Name) {
+			bad()
+		}
+		elem = listSrc + "[" + key.Name + "].ID"
+	} else {
+		val, _ := r.Value.(*ast.Ident)
+		if val == nil || key.Name != "_" || val.Name == "_" || k.reserved(val.Name) {
+			bad()
+		}
+		if _, used := env[val.Name]; used {
+			bad()
+		}
+		elem = val.Name + ".ID"
+	}
+	var ifs *ast.IfStmt
+	for _, st := range r.Body.List {
+		if k.silentStmt(st) {
+			continue
+		}
+		x, ok := plainIf(st)
+		if !ok || ifs != nil {
+			bad()
+		}
+		ifs = x
+	}
+	if ifs == nil {
+		bad()
+	}
+	cmp, ok := ifs.Cond.(*ast.BinaryExpr)
+	if !ok || cmp.Op != token.EQL || !((src(cmp.X) == elem && src(cmp.Y) == sender) || (src(cmp.X) == sender && src(cmp.Y) == elem)) {
+		bad()
+	}
+	var body []ast.Stmt
+	for _, st := range ifs.Body.List {
+		if !k.silentStmt(st) {
+			body = append(body, st)
+		}
+	}
+	if len(body) == 2 {
+		if br, ok := body[1].(*ast.BranchStmt); !ok || br.Tok != token.BREAK || br.Label != nil {
+			bad()
+		}
+		body = body[:1]
+	}
+	if len(body) != 1 {
+		bad()
+	}
+	set, ok := body[0].(*ast.AssignStmt)
+	if !ok || set.Tok != token.ASSIGN || len(set.Lhs) != 1 || len(set.Rhs) != 1 || src(set.Rhs[0]) != "true" {
+		bad()
+	}
+	flag, ok := set.Lhs[0].(*ast.Ident)
+	if !ok || !declared[flag.Name] || env[flag.Name].s != "False" {
+		k.fail(r, "membership flag is not a local initialised to false")
+	}
+	env[flag.Name] = lexpr{"listed", tBool, true}
+	return flag.Name + " := (" + sender + " ∈ IDs of " + listSrc + ")  [for-range membership loop]"
 }
